@@ -141,6 +141,9 @@ def run(ctx) -> Result:
     import repid as _repid
     from repid import Connection, InMemoryMessageBroker
     conn = Connection(InMemoryMessageBroker())
+    import asyncio
+    loop = asyncio.new_event_loop()
+    loop.run_until_complete(conn.message_broker.queue_declare("default"))
     for _ in range(n // 3 + 8):
         ts = rng.randrange(-10**12, 10**12)
         ttl = rng.choice([None, S, 2 * S, 3600 * S, rng.randrange(S, 10**13)])
@@ -169,7 +172,19 @@ def run(ctx) -> Result:
             ask("pred", case, sx([A("c19.overdueOk"), now, ts, opt(ttl), bool(b)]), "true")
             res.dist["overdue:Job"] += 1
             res.note(("o", "Job", ts, ttl, now))
+            # … and the message the job becomes shares the job's time base: enqueued at `now`, it carries the job's timestamp,
+            # so that job and message decide expiry alike
+            sent = loop.run_until_complete(job.enqueue())
+            mp = sent[2]
+            case = {"fn": "Job → message parameters", "job_created_us": ts, "enqueued_at_us": now, "ttl_us": ttl}
+            if to_us(mp.timestamp) != ts or bool(mp.is_overdue) != bool(b):
+                res.bad("impl", "the message enqueued by a job does not carry the job's timestamp: expiry is not decided alike for the "
+                                "job and its message", case=case,
+                        observed={"message_timestamp_us": to_us(mp.timestamp), "message_overdue": bool(mp.is_overdue), "job_overdue": bool(b)},
+                        expected={"message_timestamp_us": ts})
+            res.dist["job-message-time-base"] += 1
 
+    loop.close()
     answers = model.ask(reqs)
     res.extra["model_requests"] = len(reqs)
     for (kind, case, impl), line, ans in zip(meta, reqs, answers):
